@@ -30,7 +30,8 @@ def links_from_html(
             continue
 
         # urllib.parse.urljoin lowercases protocol...
-        if not PROTOCOL_RE.match(url):
+        # NOTE: a scheme-relative href ("//host/path") is relative too
+        if url.startswith("//") or not PROTOCOL_RE.match(url):
             url = urljoin(base_url, url)
 
         if not is_url(
